@@ -119,6 +119,7 @@ type CallAnn struct {
 	After   bool
 	Asserts []Clause
 	Assumes []Clause
+	Reached []Clause // reached when <cond>: whenever the enclosing iteration (or the function) runs and cond holds, control reaches this call
 	Unfolds []Clause // opaque predicate instances whose definition is made available at this point
 	Folds   []Clause // opaque predicate instances established at this point by proving their definition
 	Ghosts  []GhostUpd
@@ -269,7 +270,7 @@ func lex(s string) ([]tok, error) {
 		}
 		if unicode.IsLetter(rune(ch)) || ch == '_' {
 			j := i
-			for j < len(s) && (unicode.IsLetter(rune(s[j])) || unicode.IsDigit(rune(s[j])) || s[j] == '_') {
+			for j < len(s) && (unicode.IsLetter(rune(s[j])) || unicode.IsDigit(rune(s[j])) || s[j] == '_' || s[j] == '$') {
 				j++
 			}
 			out = append(out, tok{kind: "id", s: s[i:j]})
@@ -699,9 +700,9 @@ func parseExprString(s string) (e Expr, err error) {
 // ---------------------------------------------------------------------------
 // Contract file reader
 
-var topKeywords = map[string]bool{"opaque": true, "deterministic": true, "func": true, "ghost": true, "ufunc": true, "pure": true, "pred": true, "axiom": true, "lemma": true, "type": true, "extern": true, "tag": true, "verified": true, "writers": true, "confined": true}
+var topKeywords = map[string]bool{"opaque": true, "deterministic": true, "func": true, "ghost": true, "ufunc": true, "pure": true, "pred": true, "axiom": true, "lemma": true, "type": true, "extern": true, "tag": true, "verified": true, "writers": true, "confined": true, "callers": true}
 var clauseKeywords = map[string]bool{"unfold": true, "fold": true, "owns": true, "reveal": true, "cases": true, "dispatch": true, "requires": true, "ensures": true, "modifies": true, "serves": true, "loop": true, "invariant": true,
-	"at": true, "after": true, "assert": true, "assume": true, "flag": true, "set": true, "uses": true, "locals": true}
+	"at": true, "after": true, "assert": true, "assume": true, "flag": true, "set": true, "uses": true, "locals": true, "reached": true}
 
 type rawLine struct {
 	text string
@@ -956,6 +957,18 @@ func readSpecFile(path string, isSpec bool) (*SpecFile, error) {
 			cd.Line = g.line
 			sf.Confined = append(sf.Confined, cd)
 			cur = nil
+		case "callers":
+			// callers <function key> serves Cxx ... = fnkey fnkey ...   (the complete list of module functions that call it)
+			i := strings.Index(rest, "=")
+			if i < 0 {
+				return nil, perr(g, fmt.Errorf("callers: expected 'callers <function> serves Cxx = <function keys>'"))
+			}
+			f := strings.Fields(rest[:i])
+			if len(f) < 3 || f[1] != "serves" {
+				return nil, perr(g, fmt.Errorf("callers: expected 'callers <function> serves Cxx = <function keys>'"))
+			}
+			sf.Writers = append(sf.Writers, WritersDecl{Path: "call:" + f[0], Serves: f[2:], Allowed: strings.Fields(rest[i+1:]), Line: g.line})
+			cur = nil
 		case "writers":
 			// writers pkg.Type.Field[[]] serves Cxx ... = fnkey fnkey ...
 			i := strings.Index(rest, "=")
@@ -998,6 +1011,22 @@ func readSpecFile(path string, isSpec bool) (*SpecFile, error) {
 				return nil, perr(g, fmt.Errorf("clause %q outside a func contract", w))
 			}
 			switch w {
+			case "reached":
+				// reached [label] when <cond>
+				label, r := stripLabel(rest)
+				r = strings.TrimSpace(r)
+				if !strings.HasPrefix(r, "when ") {
+					return nil, perr(g, fmt.Errorf("reached: expected 'reached [label] when <condition>'"))
+				}
+				r = strings.TrimSpace(strings.TrimPrefix(r, "when "))
+				e, err := parseExprString(r)
+				if err != nil {
+					return nil, perr(g, err)
+				}
+				if curCall == nil {
+					return nil, perr(g, fmt.Errorf("reached outside 'at call'"))
+				}
+				curCall.Reached = append(curCall.Reached, Clause{Label: label, E: e, Text: r, Line: g.line})
 			case "requires", "ensures", "invariant", "assert", "assume", "unfold", "fold":
 				label, r := stripLabel(rest)
 				e, err := parseExprString(r)
